@@ -112,18 +112,13 @@ Qed.
 
 (* ------------------------------------------------------------------ zero-duration segments *)
 Local Open Scope R_scope.
-(* [X at 1 for 1/2, X at 2 for 0, X at 1 for 1/2] and [X at 1 for 1] are the same function of time,
-   and __eq__ distinguishes them *)
+(* [X at 1 for 1/2, X at 2 for 0, X at 1 for 1/2] and [X at 1 for 1] are the same function of time.
+   Since fix ac70929 they compare equal; before, __eq__ distinguished them. *)
 Definition zd_split : pulse := mk [(1, 0); (1, 1); (1, 0)]%Z [(1, 0); (1, 0); (1, 0)]%Z [(1, -1); (0, 0); (1, -1)]%Z.
 Definition zd_merged : pulse := mk [(1, 0)]%Z [(1, 0)]%Z [(1, 0)]%Z.
-Theorem eq_time_denotation_refuted :
-  exists A B, wf A /\ wf B /\ (forall t, at_time (segments A) t = at_time (segments B) t) /\
-              eq64 A B = false /\ eq64 B A = false.
+Lemma zd_same_time_function t : at_time (segments zd_split) t = at_time (segments zd_merged) t.
 Proof.
-  exists zd_split, zd_merged.
-  split; [apply wf_mk; simpl; lia|]. split; [apply wf_mk; simpl; lia|].
-  split; [|split; vm_compute; reflexivity].
-  intros t. unfold zd_split, zd_merged, mk, segments, segs_of. cbn -[Rlt_dec d2R].
+  unfold zd_split, zd_merged, mk, segments, segs_of. cbn -[Rlt_dec d2R].
   assert (E1 : d2R (1, -1)%Z = / 2) by (unfold d2R; simpl; lra).
   assert (E2 : d2R (0, 0)%Z = 0) by (unfold d2R; simpl; lra).
   assert (E3 : d2R (1, 0)%Z = 1) by (unfold d2R; simpl; lra).
@@ -131,4 +126,19 @@ Proof.
   destruct (Rlt_dec t (/ 2)); destruct (Rlt_dec t 1); try lra; try reflexivity.
   - destruct (Rlt_dec (t - / 2) 0); try lra. destruct (Rlt_dec (t - / 2 - 0) (/ 2)); try lra. reflexivity.
   - destruct (Rlt_dec (t - / 2) 0); try lra. destruct (Rlt_dec (t - / 2 - 0) (/ 2)); try lra. reflexivity.
+Qed.
+Theorem eq_zero_duration_example :
+  wf zd_split /\ wf zd_merged /\ (forall t, at_time (segments zd_split) t = at_time (segments zd_merged) t) /\
+  eq64 zd_split zd_merged = true /\ eq64 zd_merged zd_split = true.
+Proof.
+  split; [apply wf_mk; simpl; lia|]. split; [apply wf_mk; simpl; lia|].
+  split; [exact zd_same_time_function|]. split; vm_compute; reflexivity.
+Qed.
+Theorem eq_time_denotation_prefix_refuted :
+  exists A B, wf A /\ wf B /\ (forall t, at_time (segments A) t = at_time (segments B) t) /\
+              eq64_prefix A B = false /\ eq64_prefix B A = false.
+Proof.
+  exists zd_split, zd_merged.
+  split; [apply wf_mk; simpl; lia|]. split; [apply wf_mk; simpl; lia|].
+  split; [exact zd_same_time_function|]. split; vm_compute; reflexivity.
 Qed.
